@@ -465,6 +465,10 @@ def run(rep, ctx):
     with rep.guard("R08.7"):
         from . import shared as _sh
         _sh.normal_form(rep, ctx.model, "R08.7", ranking=False)
+        # the positions the parameters are solved from are x' = R x + t of the chosen normalizer (R (x + t) puts them on another position
+        # than the permuted letters say)
+        from . import c05 as _c05a
+        _c05a.r05_3(rep, ctx.model, "R08.7")
     rep.rule("R08.8", "positions are matched against the tabulated expressions in the setting the expressions are written in (standard setting)")
     with rep.guard("R08.8"):
         r08_8(rep, M, "R08.8")
@@ -478,11 +482,8 @@ def run(rep, ctx):
     with rep.guard("R08.10"):
         TO.letter_reference(rep, ctx.tables, "R08.10")
     rep.floor("R08.10", 1700)
-    rep.rule("R08.11", "spglib is given the analysed structure unmodified with the analyzer's tolerance, and its standardised lattice / positions / types are used without a change of convention (shared with C05)")
-    with rep.guard("R08.11"):
-        from . import shared as _shb
-        _shb.spglib_boundary(rep, ctx.model, "R08.11", back=False)
-    rep.floor("R08.11", 4)
+    # R08.11 (spglib boundary, borrowed from C05) was removed: C08 speaks about the returned conventional system only, which is
+    # self-consistent whatever structure and tolerance spglib was given (see DESIGN section 9, scoping of borrowed rules)
     rep.rule("R08.12", "every tabulated normalizer is an automorphism of its group and an isometry of the lattice (the normalised cell is the same crystal in the same space group; shared with C05/C14)")
     from . import shared as _shn
     _shn.normalizer_tables(rep, ctx.tables, "R08.12", perm=True)
